@@ -13,7 +13,7 @@ from vlib.core import Stage, fail
 ID = "C04"
 MANIFEST = {
     "category": "exploration",
-    "text": "Generated-input search: valid expressions over requirement-constraint, hint and format-constraint keys (n-ary U/O/X nodes, juxtaposition attaching one format constraint to a hint or to an rc-carrying operand on either side, all spellings/whitespace/brackets) times all 3^k assignments for k<=4 keys (12 sampled ones incl. all-UNKNOWN beyond). A recursive reference evaluator over the AST with its own Kleene+NEUTRAL tables predicts the state; it is compared through evaluate_requirement_constraint_tree and through requirement_constraint_evaluation (string and already parsed tree; fulfilled/is_conditional mapping); one parsed tree is re-used for all assignments (parse once, evaluate often), so an evaluator that consumes or rewrites its input shows up as a wrong outcome under a later assignment. Any exception on an in-domain case is a violation.",
+    "text": "Generated-input search: valid expressions over requirement-constraint, hint and format-constraint keys (n-ary U/O/X nodes, juxtaposition attaching one format constraint to a hint or to an rc-carrying operand on either side, all spellings/whitespace/brackets) times all 3^k assignments for k<=4 keys (12 sampled ones incl. all-UNKNOWN beyond). A recursive reference evaluator over the AST with its own Kleene+NEUTRAL tables predicts the state; it is compared through evaluate_requirement_constraint_tree and through requirement_constraint_evaluation (string and already parsed tree; fulfilled/is_conditional mapping); one parsed tree is re-used for all assignments (parse once, evaluate often), so an evaluator that consumes or rewrites its input shows up as a wrong outcome under a later assignment. Any exception on an in-domain case is a violation. One slice is enumerated completely: every valid expression with up to 3 (thorough: 4) atoms over the keys [1], [2], [501], [901], [902] (1 335 / 35 356 expressions) under all assignments.",
     "note": "Trusted: reference evaluator and tables in vlib/ref.py (C03 ties the real tables to the same laws exhaustively; C01 ties Lark's grouping to the AST), generator in vlib/gen.py. Bounded by 12/30 atoms.",
     "technique": "property-based testing against a reference evaluator (model-based oracle on the generating AST)",
 }
@@ -113,8 +113,24 @@ def strategy(tier):
     return build()
 
 
+SMALL = {"quick": 3, "thorough": 4}
+
+
+def enumerate_small(tier, shard, nshards, seed):  # pylint:disable=unused-argument
+    """every valid expression with up to 3 (thorough: 4) atoms over {[1], [2], [501], [901], [902]}, all assignments"""
+    index = 0
+    for ast in ref.enumerate_small_dom(SMALL[tier]):
+        if ref.validity(ast) != "valid":
+            continue
+        if index % nshards == shard:
+            yield {"ast": ast, "s": ref.canonical(ast), "assignments": "all"}
+        index += 1
+
+
 STAGES = [
     Stage(name="semantics", kind="hyp", check=check, classify=classify, strategy=strategy,
           budget={"quick": 400, "thorough": 4000}, floors={"has-juxtaposition": 0.2, "has-hint": 0.2},
           sample=lambda c: {"s": c["s"], "assignments": c["assignments"] if c["assignments"] == "all" else c["assignments"][:2]}),
+    Stage(name="small-scope", kind="enum", check=check, classify=classify, enumerate=enumerate_small, exhaustive=True,
+          sample=lambda c: {"s": c["s"], "assignments": "all"}),
 ]  # fmt: skip
